@@ -12,6 +12,7 @@ mod files;
 mod crash;
 mod wire;
 mod netfuzz;
+mod pairing;
 use hcommon::parse_cli;
 
 fn main() {
